@@ -121,6 +121,18 @@ impl Untrusted {
                 return Outcome::fail(class, detail);
             }
         }
+        {
+            // digest of everything observable in this run: corrupted bytes, outcome counters, device clock
+            let mut dg = Digest::new();
+            dg.bytes(&corrupted);
+            for (k, v) in &st.counters {
+                if !k.starts_with("probe.") {
+                    dg.str(k).u64(*v);
+                }
+            }
+            dg.u64(st.sim_ops).u64(st.sim_bytes);
+            st.digest = dg.finish();
+        }
         if changed {
             let mut fp = Digest::new();
             for m in &case.plan.muts {
